@@ -71,18 +71,18 @@ type modSpec struct {
 
 // opSpec is one update of a history.
 type opSpec struct {
-	Kind        string      `json:"kind"`
-	Rule        *ruleSpec   `json:"rule,omitempty"`
-	Rules       []ruleSpec  `json:"rules,omitempty"`
-	Batch       []batchSpec `json:"batch,omitempty"`
-	Group       *groupSpec  `json:"group_cfg,omitempty"`
-	Bundle      *bundleSpec `json:"bundle,omitempty"`
+	Kind        string       `json:"kind"`
+	Rule        *ruleSpec    `json:"rule,omitempty"`
+	Rules       []ruleSpec   `json:"rules,omitempty"`
+	Batch       []batchSpec  `json:"batch,omitempty"`
+	Group       *groupSpec   `json:"group_cfg,omitempty"`
+	Bundle      *bundleSpec  `json:"bundle,omitempty"`
 	Bundles     []bundleSpec `json:"bundles,omitempty"`
-	OverrideAll bool        `json:"override_all,omitempty"`
-	GroupID     string      `json:"group_id,omitempty"`
-	RuleID      string      `json:"rule_id,omitempty"`
-	Regex       bool        `json:"regex,omitempty"`
-	Mod         *modSpec    `json:"mod,omitempty"`
+	OverrideAll bool         `json:"override_all,omitempty"`
+	GroupID     string       `json:"group_id,omitempty"`
+	RuleID      string       `json:"rule_id,omitempty"`
+	Regex       bool         `json:"regex,omitempty"`
+	Mod         *modSpec     `json:"mod,omitempty"`
 }
 
 const (
